@@ -33,6 +33,8 @@ func main() {
 		err = cmdMCP(os.Args[2:])
 	case "lockstep":
 		err = cmdLockstep(os.Args[2:])
+	case "limits":
+		err = cmdLimits(os.Args[2:])
 	default:
 		err = fmt.Errorf("unknown subcommand %q", os.Args[1])
 	}
